@@ -632,6 +632,31 @@ impl Catalog {
         Ok(())
     }
 
+    /// Marks a catalog entry as removed by the snapshot's transaction. A mark left by a transaction
+    /// that has aborted does not count and is replaced (page zero knows who has aborted by now);
+    /// the mark of anybody else - somebody is dropping the relation, or dropped it after we
+    /// began - is a write-write conflict: skipping our removal silently would report a DROP
+    /// that never happens.
+    fn mark_removed(&self, tuple: &mut Tuple, snapshot: &Snapshot) -> CatalogResult<()> {
+        match tuple.xmax() {
+            Some(xmax)
+                if snapshot.is_transaction_aborted(xmax)
+                    || self.pager.read().is_transaction_aborted(xmax) =>
+            {
+                tuple.set_xmax(Some(snapshot.xid()));
+            }
+            Some(xmax) if xmax != snapshot.xid() => {
+                return Err(CatalogError::Other(format!(
+                    "write-write conflict: transaction {} drops a relation that transaction {} drops as well",
+                    snapshot.xid(),
+                    xmax
+                )));
+            }
+            _ => tuple.delete(snapshot.xid())?,
+        }
+        Ok(())
+    }
+
     /// Removes a given relation using the provided
     /// Cascades the removal if required.
     pub(crate) fn remove_relation(
@@ -690,7 +715,7 @@ impl Catalog {
         };
 
 
-        existing_tuple.delete(snapshot.xid())?;
+        self.mark_removed(&mut existing_tuple, snapshot)?;
 
         {
             let mut meta_table = builder.build_tree_mut(self.meta_table);
@@ -726,7 +751,7 @@ impl Catalog {
         };
 
 
-        existing_tuple.delete(snapshot.xid())?;
+        self.mark_removed(&mut existing_tuple, snapshot)?;
 
         {
             let mut meta_index = builder.build_tree_mut(self.meta_index);
